@@ -15,11 +15,41 @@ func renderSel(b *strings.Builder, s Sel) {
 		b.WriteString(" " + s.Raw)
 		return
 	}
+	if len(s.Parts) > 0 {
+		b.WriteString(" {")
+		for _, part := range s.Parts {
+			switch part {
+			case "edges":
+				if len(s.Sub) > 0 {
+					b.WriteString(" edges { cursor node { ")
+					for _, x := range s.Sub {
+						renderSel(b, x)
+						b.WriteByte(' ')
+					}
+					b.WriteString("} }")
+				} else {
+					b.WriteString(" edges { cursor }")
+				}
+			case "edges2":
+				b.WriteString(" e2: edges { cursor }")
+			case "totalCount":
+				b.WriteString(" totalCount")
+			case "totalCount2":
+				b.WriteString(" tc2: totalCount")
+			case "pageInfo":
+				b.WriteString(" pageInfo { hasNextPage hasPreviousPage startCursor endCursor }")
+			case "pageInfo2":
+				b.WriteString(" pi2: pageInfo { hasNextPage endCursor }")
+			}
+		}
+		b.WriteString(" }")
+		return
+	}
 	if len(s.Sub) == 0 {
 		return
 	}
 	switch s.Name {
-	case "c", "t":
+	case "c", "t", "ca", "cd", "tu":
 		b.WriteString(" { edges { cursor node { ")
 		for _, x := range s.Sub {
 			renderSel(b, x)
@@ -72,7 +102,7 @@ var connTails = []string{
 
 func (g *gen) sel(depth int, root bool, mutation bool) Sel {
 	g.budget--
-	names := []string{"i", "i", "i", "n", "o", "o", "p", "l", "c", "t"}
+	names := []string{"i", "i", "i", "n", "o", "o", "p", "l", "c", "t", "ca", "cd", "tu"}
 	if mutation && root {
 		names = []string{"i", "i", "n", "o", "l", "c"}
 	}
@@ -83,6 +113,13 @@ func (g *gen) sel(depth int, root bool, mutation bool) Sel {
 	switch s.Name {
 	case "o", "p", "l":
 		s.Sub = g.sels(depth-1, false, false)
+	case "ca", "cd", "tu":
+		lim := hx.Pick(g.r, []int{0, 0, 1, 2, 3})
+		s.Args = connArgs(g.r, s.Name, lim)
+		s.Parts = connParts(g.r, s.Name)
+		if g.r.Chance(1, 3) && depth > 0 && g.budget > 0 {
+			s.Sub = g.sels(depth-1, false, false)
+		}
 	case "c", "t":
 		lim := hx.Pick(g.r, []int{0, 1, 2, 2, 3, 5})
 		arg := "first"
@@ -196,6 +233,142 @@ func nestedCase(r *hx.Rand) Case {
 	}
 	c.Query = render(c.Op, c.Tree)
 	return c
+}
+
+var connKinds = []string{"c", "ca", "cd", "t", "tu"}
+
+func hasCount(kind string) bool { return kind == "ca" || kind == "cd" || kind == "tu" }
+
+func connParts(r *hx.Rand, kind string) []string {
+	pool := []string{"edges", "pageInfo", "pageInfo2", "edges2"}
+	if hasCount(kind) {
+		pool = append(pool, "totalCount", "totalCount", "totalCount2")
+	}
+	hx.Shuffle(r, pool)
+	n := r.Range(1, 4)
+	seen := map[string]bool{}
+	var out []string
+	for _, x := range pool {
+		if len(out) < n && !seen[x] {
+			seen[x] = true
+			out = append(out, x)
+		}
+	}
+	return out
+}
+
+func connArgs(r *hx.Rand, kind string, limit int) string {
+	arg := "first"
+	if r.Chance(1, 3) {
+		arg = "last"
+	}
+	args := fmt.Sprintf(", %s: %d", arg, limit)
+	if kind == "t" || kind == "tu" {
+		if r.Chance(1, 2) {
+			args += fmt.Sprintf(", after: %q", timeCursor(r.Intn(3)))
+		}
+		if r.Chance(1, 3) {
+			args += fmt.Sprintf(", before: %q", timeCursor(3+r.Intn(3)))
+		}
+	} else if r.Chance(1, 4) {
+		args += fmt.Sprintf(", after: %q", intCursor(r.Intn(2)))
+	}
+	return args
+}
+
+// connCase: connection fields of every resolver kind (ResolveEdges / ResolveAllEdges, with and without
+// ResolveTotalCount, time-based) × page size {0, 1, n} × every combination of edges / totalCount /
+// pageInfo incl. the same field under two aliases × {sync, Go, Batch}: with a zero page size every
+// pageInfo/totalCount field fetches the edges for itself and chains on its own promise.
+func connCase(r *hx.Rand) Case {
+	c := Case{
+		Seed:   r.Uint64(),
+		PAsync: hx.Pick(r, []int{100, 100, 70, 40}),
+		PBatch: hx.Pick(r, []int{0, 0, 50, 100}),
+		PErr:   hx.Pick(r, []int{0, 0, 5, 15}),
+		PGate:  hx.Pick(r, []int{0, 50, 100}),
+		PPre:   hx.Pick(r, []int{0, 50, 100}),
+		RoundK: hx.Pick(r, []int{1, 2, 4}),
+		Procs:  hx.Pick(r, []int{1, 2, 4, 16}),
+	}
+	g := &gen{r: r}
+	mk := func() Sel {
+		kind := hx.Pick(r, connKinds)
+		limit := hx.Pick(r, []int{0, 0, 1, 2, 3})
+		s := Sel{Name: kind, ID: g.nextID(), Args: connArgs(r, kind, limit), Parts: connParts(r, kind)}
+		if r.Chance(1, 3) {
+			s.Sub = []Sel{{Name: "i", ID: g.nextID()}}
+		}
+		return s
+	}
+	for i, n := 0, r.Range(1, 3); i < n; i++ {
+		s := mk()
+		switch r.Intn(4) {
+		case 0:
+			s = Sel{Name: "o", ID: g.nextID(), Sub: []Sel{s, {Name: "i", ID: g.nextID()}}}
+		case 1:
+			s = Sel{Name: "l", ID: g.nextID(), Sub: []Sel{s}}
+		}
+		c.Tree = append(c.Tree, s)
+	}
+	if r.Chance(1, 3) {
+		c.Tree = append(c.Tree, Sel{Name: "i", ID: g.nextID()})
+	}
+	c.Query = render(c.Op, c.Tree)
+	return c
+}
+
+// connMatrix: one connection field; kind × page size × selection × resolution mode, exhaustively.
+func connMatrix(procs []int) []Case {
+	selections := [][]string{{"edges"}, {"pageInfo"}, {"totalCount"}, {"edges", "pageInfo"}, {"edges", "totalCount"},
+		{"totalCount", "pageInfo"}, {"edges", "totalCount", "pageInfo"}, {"pageInfo", "pageInfo2"}, {"totalCount", "totalCount2"},
+		{"pageInfo", "totalCount", "pageInfo2", "totalCount2"}, {"edges", "edges2", "pageInfo"}}
+	type m struct {
+		mode, gate string
+	}
+	modes := []m{{"sync", ""}, {"go", "post"}, {"go", "pre"}, {"batch", ""}}
+	var out []Case
+	n := 0
+	for _, kind := range connKinds {
+		for _, limit := range []int{0, 1, 3} {
+			for _, sel := range selections {
+				usesCount := false
+				for _, p := range sel {
+					if strings.HasPrefix(p, "totalCount") {
+						usesCount = true
+					}
+				}
+				if usesCount && !hasCount(kind) {
+					continue
+				}
+				for _, mm := range modes {
+					arg := "first"
+					if n%3 == 2 {
+						arg = "last"
+					}
+					c := Case{Seed: uint64(5000 + n), RoundK: 1 + n%2, Procs: procs[n%len(procs)], PAsync: 100, PBatch: 0, PGate: 100, PPre: 50, Over: map[string]Spec{},
+						Tree: []Sel{{Name: kind, ID: 1, Args: fmt.Sprintf(", %s: %d", arg, limit), Parts: sel}, {Name: "i", ID: 2}}}
+					if mm.mode == "batch" {
+						c.PBatch = 100
+					}
+					if mm.mode == "sync" {
+						c.PAsync = 0
+					}
+					if mm.gate != "" {
+						if mm.gate == "pre" {
+							c.PPre = 100
+						} else {
+							c.PPre = 0
+						}
+					}
+					c.Query = render("", c.Tree)
+					out = append(out, c)
+					n++
+				}
+			}
+		}
+	}
+	return out
 }
 
 // wsCase: the operation goes through ServeGraphQLWS; half of them are subscriptions with 1..3 events
